@@ -97,6 +97,27 @@ Proof.
   apply Forall_forall. intros i _. apply bytes_ok_wire_enc.
 Qed.
 
+(** items written by the encoder at ANY fuel, decoded by the executable unmarshal: the value,
+    unless the decoder runs out of fuel *)
+Lemma kmip_items_roundtrip_unless_fuel root d v items st' fe sc fc :
+  find_tdef kmip_schema root = Some d ->
+  enc_ty kmip_schema fe None (TNamed root) (t_deftag d) v = Ok (items, st') ->
+  conf_ty kmip_schema kmip_ops kmip_attrs kmip_objs fc None (TNamed root) (t_deftag d) v = Some sc ->
+  forallb item_ok items = true -> len (wire_enc_list items) < 2 ^ 32 ->
+  kmip_unmarshal root (wire_enc_list items) <> OutOfFuel -> kmip_unmarshal root (wire_enc_list items) = Ok v.
+Proof.
+  intros Ed He Hc Hok Hlen.
+  assert (Hsm : forallb item_small items = true) by (apply items_small_of_len, Hlen).
+  destruct (bin_roundtrip kmip_schema kmip_ops kmip_attrs kmip_objs fe fc None (TNamed root) (t_deftag d) v items st' sc He Hc Hok Hsm eq_refl)
+    as (c & Hcur & Hdec).
+  unfold kmip_unmarshal. rewrite Hcur. cbn [bind]. unfold kmip_dec. rewrite Ed. intros Hn.
+  specialize (Hdec (FUEL + (fe + 2 * items_size items + 2))%nat ltac:(lia)).
+  rewrite (dec_ty_stable kmip_schema kmip_ops kmip_attrs kmip_objs bin_fmt FUEL (FUEL + (fe + 2 * items_size items + 2))) in Hdec.
+  - rewrite Hdec. reflexivity.
+  - lia.
+  - intros E. apply Hn. rewrite E. reflexivity.
+Qed.
+
 Lemma kmip_roundtrip_unless_fuel root d v bytes sc fc :
   find_tdef kmip_schema root = Some d ->
   kmip_marshal root v = Ok bytes ->
@@ -111,15 +132,7 @@ Proof.
   { eapply (enc_ty_ranged kmip_schema kmip_schema_rng_ok); [|exact He | exact Hr].
     eapply deftag_ok; [exact kmip_schema_rng_ok | exact Ed]. }
   split; [apply items_bytes_ok, Hok|].
-  assert (Hsm : forallb item_small items = true) by (apply items_small_of_len, Hlen).
-  destruct (bin_roundtrip kmip_schema kmip_ops kmip_attrs kmip_objs FUEL fc None (TNamed root) (t_deftag d) v items st' sc He Hc Hok Hsm eq_refl)
-    as (c & Hcur & Hdec).
-  unfold kmip_unmarshal. rewrite Hcur. cbn [bind]. unfold kmip_dec. rewrite Ed. intros Hn.
-  specialize (Hdec (FUEL + 2 * items_size items + 2)%nat (Nat.le_refl _)).
-  rewrite (dec_ty_stable kmip_schema kmip_ops kmip_attrs kmip_objs bin_fmt FUEL (FUEL + 2 * items_size items + 2)) in Hdec.
-  - rewrite Hdec. reflexivity.
-  - lia.
-  - intros E. apply Hn. rewrite E. reflexivity.
+  eapply kmip_items_roundtrip_unless_fuel; eassumption.
 Qed.
 
 (** any root structure of the schema: static depth of the type (DecTerm.bound) plus two units
